@@ -296,11 +296,30 @@ def cli_cases(tier):
     out += multi_cert_cases()
     out += probe_fault_cases()
     out += gex_order_cases()
+    out += gex_split_cases()
     more = []
     for i, (family, pol, peer, fmt) in enumerate(c for c in out if c[3] == 'json'):
         if i % 3 == 0:
             more.append((family, pol, peer, ('json-l-warn', 'json-l-fail', 'json-v')[(i // 3) % 3]))
     return out + more
+
+
+def gex_split_cases():
+    """the two group-exchange methods served from different moduli (every ordered pair of sizes): the policy's modulus sizes are compared
+    with what each method really hands out"""
+    out = []
+    G1, G256 = 'diffie-hellman-group-exchange-sha1', 'diffie-hellman-group-exchange-sha256'
+    sizes = (1024, 1536, 2048, 3072, 4096)
+    for a in sizes:
+        for b in sizes:
+            if a == b:
+                continue
+            for order in ([G256, G1], [G1, G256]):
+                peer = dict(BASE_PEER, kex=order + ['curve25519-sha256'], dh={G1: a, G256: b})
+                for pa, pb in ((a, b), (b, a), (a, a), (b, b)):
+                    pol = {'dh_modulus_sizes': {G1: pa, G256: pb}}
+                    out.append(('gex-split', pol, peer, 'json' if (len(out) % 2) else 'text'))
+    return out
 
 
 def gex_order_cases():
@@ -395,7 +414,8 @@ def work_cli(chunk, st):
                 hk[t] = wire.rsa_blob_tree(v['hostkey_size']) if 'rsa' in t else wire.ed25519_blob_tree()
         gex = None
         if peer['dh']:
-            gex = P.GexPolicy([list(peer['dh'].values())[0]], P.STRICT)
+            # one moduli file for every group-exchange method, or one per method when the sizes differ
+            gex = P.GexPolicy([list(peer['dh'].values())[0]], P.STRICT) if len(set(peer['dh'].values())) == 1 else {a: P.GexPolicy([v], P.STRICT) for a, v in peer['dh'].items()}
         kexl = list(peer['kex'])
         if peer['host_keys'] and not any(k in ('curve25519-sha256',) for k in kexl):
             pass
